@@ -1,0 +1,161 @@
+//go:build verif
+
+package harfbuzz
+
+// Hooks for the verification harness (properties C01 and C18): constructors, accessors and thin
+// wrappers around the unexported Buffer methods, propagateFlags and (*otApplyContext).recurse.
+// Nothing here changes behaviour; the file is only compiled with -tags verif.
+
+// VerifGlyph is the part of a GlyphInfo the buffer core reads or writes.
+type VerifGlyph struct {
+	Cluster   int
+	Mask      uint32
+	Codepoint rune
+	Glyph     GID
+}
+
+// VerifState is a snapshot of the buffer fields the model talks about.
+type VerifState struct {
+	Info, Out      []VerifGlyph
+	Idx            int
+	HaveOutput     bool
+	PosLen, PosCap int
+	Level          ClusterLevel
+	Flags          ShappingOptions
+	HasGlyphFlags  bool
+}
+
+func verifToInfos(gs []VerifGlyph) []GlyphInfo {
+	out := make([]GlyphInfo, len(gs)) // exact capacity
+	for i, g := range gs {
+		out[i] = GlyphInfo{Cluster: g.Cluster, Mask: g.Mask, codepoint: g.Codepoint, Glyph: g.Glyph}
+	}
+	return out
+}
+
+func verifFromInfos(gs []GlyphInfo) []VerifGlyph {
+	out := make([]VerifGlyph, len(gs))
+	for i, g := range gs {
+		out[i] = VerifGlyph{Cluster: g.Cluster, Mask: g.Mask, Codepoint: g.codepoint, Glyph: g.Glyph}
+	}
+	return out
+}
+
+// VerifNewBuffer builds a buffer in the given state (slices with exact capacity).
+func VerifNewBuffer(st VerifState) *Buffer {
+	b := NewBuffer()
+	b.Info = verifToInfos(st.Info)
+	b.outInfo = verifToInfos(st.Out)
+	b.idx = st.Idx
+	b.haveOutput = st.HaveOutput
+	b.Pos = make([]GlyphPosition, st.PosLen, st.PosCap)
+	b.ClusterLevel = st.Level
+	b.Flags = st.Flags
+	if st.HasGlyphFlags {
+		b.scratchFlags |= bsfHasGlyphFlags
+	}
+	return b
+}
+
+// VerifState returns the current state.
+func (b *Buffer) VerifState() VerifState {
+	return VerifState{
+		Info: verifFromInfos(b.Info), Out: verifFromInfos(b.outInfo), Idx: b.idx, HaveOutput: b.haveOutput,
+		PosLen: len(b.Pos), PosCap: cap(b.Pos), Level: b.ClusterLevel, Flags: b.Flags,
+		HasGlyphFlags: b.scratchFlags&bsfHasGlyphFlags != 0,
+	}
+}
+
+func (b *Buffer) VerifNextGlyph()                { b.nextGlyph() }
+func (b *Buffer) VerifNextGlyphs(n int)          { b.nextGlyphs(n) }
+func (b *Buffer) VerifSkipGlyph()                { b.skipGlyph() }
+func (b *Buffer) VerifCopyGlyph()                { b.copyGlyph() }
+func (b *Buffer) VerifReplaceGlyphIndex(g GID)   { b.replaceGlyphIndex(g) }
+func (b *Buffer) VerifReplaceGlyph(u rune)       { b.replaceGlyph(u) }
+func (b *Buffer) VerifOutputRune(u rune)         { b.outputRune(u) }
+func (b *Buffer) VerifOutputGlyphIndex(g GID)    { b.outputGlyphIndex(g) }
+func (b *Buffer) VerifDeleteGlyph()              { b.deleteGlyph() }
+func (b *Buffer) VerifMergeClusters(s, e int)    { b.mergeClusters(s, e) }
+func (b *Buffer) VerifMergeOutClusters(s, e int) { b.mergeOutClusters(s, e) }
+func (b *Buffer) VerifMoveTo(i int)              { b.moveTo(i) }
+func (b *Buffer) VerifShiftForward(n int)        { b.shiftForward(n) }
+func (b *Buffer) VerifSwapBuffers()              { b.swapBuffers() }
+func (b *Buffer) VerifClearOutput()              { b.clearOutput() }
+func (b *Buffer) VerifRemoveOutput(set bool)     { b.removeOutput(set) }
+func (b *Buffer) VerifClearPositions()           { b.clearPositions() }
+func (b *Buffer) VerifReverseRange(s, e int)     { b.reverseRange(s, e) }
+func (b *Buffer) VerifReverseClusters()          { b.reverseClusters() }
+func (b *Buffer) VerifUnsafeToBreak(s, e int)    { b.unsafeToBreak(s, e) }
+func (b *Buffer) VerifUnsafeToConcat(s, e int)   { b.unsafeToConcat(s, e) }
+func (b *Buffer) VerifSafeToInsertTatweel(s, e int) {
+	b.safeToInsertTatweel(s, e)
+}
+func (b *Buffer) VerifUnsafeToBreakFromOutbuffer(s, e int)  { b.unsafeToBreakFromOutbuffer(s, e) }
+func (b *Buffer) VerifUnsafeToConcatFromOutbuffer(s, e int) { b.unsafeToConcatFromOutbuffer(s, e) }
+func (b *Buffer) VerifSetGlyphFlags(mask GlyphMask, s, e int, interior, fromOut bool) {
+	b.setGlyphFlags(mask, s, e, interior, fromOut)
+}
+func (b *Buffer) VerifPropagateFlags() { propagateFlags(b) }
+
+// VerifReplaceGlyphs calls replaceGlyphs; a nil slice stays nil.
+func (b *Buffer) VerifReplaceGlyphs(numIn int, codepoints []rune, glyphs []GID) {
+	b.replaceGlyphs(numIn, codepoints, glyphs)
+}
+
+// VerifDeleteGlyphsInplace deletes the glyphs whose Glyph id is below `below`.
+func (b *Buffer) VerifDeleteGlyphsInplace(below GID) {
+	b.deleteGlyphsInplace(func(g *GlyphInfo) bool { return g.Glyph < below })
+}
+
+// Budget constants of the layout engine.
+const (
+	VerifMaxNestingLevel = maxNestingLevel
+	VerifMaxOpsDefault   = maxOpsDefault
+)
+
+// VerifRecurseResult is what a stubbed recursion observed.
+type VerifRecurseResult struct {
+	Entries  int  // number of times recurseFunc was entered
+	MaxDepth int  // deepest nesting of recurseFunc
+	OpsLeft  int  // buffer.maxOps afterwards
+	Level    int  // nestingLevelLeft afterwards
+	Ret      bool // result of the outermost recurse
+	Cut      bool // the harness' own cut-off was reached (the budget failed to stop the recursion)
+}
+
+// VerifRecurse calls the real (*otApplyContext).recurse on lookup `start` with a stub recurseFunc:
+// lookup l re-enters recurse for every entry of table[l] (stopping when maxOps is exhausted, like
+// applyLookup). The stub cuts itself off at depth `cutoff` so that a missing budget check does not
+// kill the harness.
+func VerifRecurse(table [][]uint16, start uint16, maxOps, cutoff int) (res VerifRecurseResult) {
+	b := NewBuffer()
+	b.maxOps = maxOps
+	c := &otApplyContext{buffer: b, nestingLevelLeft: maxNestingLevel}
+	depth := 0
+	c.recurseFunc = func(c *otApplyContext, lookupIndex uint16) bool {
+		res.Entries++
+		depth++
+		if depth > res.MaxDepth {
+			res.MaxDepth = depth
+		}
+		defer func() { depth-- }()
+		if depth >= cutoff {
+			res.Cut = true
+			return false
+		}
+		if int(lookupIndex) >= len(table) {
+			return false
+		}
+		for _, sub := range table[lookupIndex] {
+			if c.buffer.maxOps <= 0 {
+				break
+			}
+			c.recurse(sub)
+		}
+		return true
+	}
+	res.Ret = c.recurse(start)
+	res.OpsLeft = b.maxOps
+	res.Level = c.nestingLevelLeft
+	return res
+}
